@@ -1,4 +1,5 @@
 import Exetera.Lemmas.Merge
+import Exetera.Lemmas.MergeFrame
 import Exetera.Props.C03
 /-!
 # C02 — DataFrame.merge returns the relational join; hints change speed, never content
@@ -327,6 +328,110 @@ theorem merge_correct_partial (how : String) (hhow : how = "left" ∨ how = "rig
 example : (leftSel "left" [0, 2, 2] [2, 2, 5]).all (fun o => match o with | some i => decide (i < 3) | none => true) = true ∧
     (rightSel "left" [0, 2, 2] [2, 2, 5]).all (fun o => match o with | some j => decide (j < 3) | none => true) = true := by
   decide
+
+/-! ## the spec facts behind `hselL` / `hselR`, and the ordered path without them -/
+
+/-- **Row numbers of the relational join are in range** (every mode): a result row never names a left row beyond the
+    left frame. -/
+theorem leftSel_in_range (how : String) (lk rk : List Int) : ∀ i, some i ∈ leftSel how lk rk → i < lk.length :=
+  sel_left_in_range how lk rk
+
+/-- … nor a right row beyond the right frame. -/
+theorem rightSel_in_range (how : String) (lk rk : List Int) : ∀ j, some j ∈ rightSel how lk rk → j < rk.length :=
+  sel_right_in_range how lk rk
+
+/-- **A side without map field is selected row by row.** `_ordered_merge` leaves a side without `_left_map` /
+    `_right_map` (and copies its columns with `chunked_copy`) only when that side drives the join and the OTHER side's
+    keys are hinted unique; for a truthful hint the relational join then takes every row of the driving side exactly once,
+    in order — so the unchanged copy IS the selected rows. -/
+theorem no_map_is_identity (how : String) (hhow : how = "left" ∨ how = "right" ∨ how = "inner") (lu ru : Bool)
+    (lk rk : List Int) (hlu : Truthful lu lk) (hru : Truthful ru rk) (p : Plan) (hp : plan how lu ru = .ok p) :
+    (p.leftMap = none → leftSel how lk rk = idSel lk.length) ∧
+    (p.rightMap = none → rightSel how lk rk = idSel rk.length) := by
+  obtain ⟨d1, d2, d3, d4, d5, d6, d7, d8, d9, d10, d11, d12⟩ := dispatch_table
+  rcases hhow with h | h | h <;> subst h <;> cases lu <;> cases ru
+  · rw [d1] at hp; cases hp; exact ⟨nofun, nofun⟩
+  · rw [d3] at hp; cases hp
+    exact ⟨fun _ => (by rw [leftSel_left]; exact leftJoin_sel_of_nodup (nodup_of_strict (hru rfl))), nofun⟩
+  · rw [d2] at hp; cases hp; exact ⟨nofun, nofun⟩
+  · rw [d4] at hp; cases hp
+    exact ⟨fun _ => (by rw [leftSel_left]; exact leftJoin_sel_of_nodup (nodup_of_strict (hru rfl))), nofun⟩
+  · rw [d5] at hp; cases hp; exact ⟨nofun, nofun⟩
+  · rw [d7] at hp; cases hp; exact ⟨nofun, nofun⟩
+  · rw [d6] at hp; cases hp
+    exact ⟨nofun, fun _ => (by rw [rightSel_right]; exact leftJoin_sel_of_nodup (nodup_of_strict (hlu rfl)))⟩
+  · rw [d8] at hp; cases hp
+    exact ⟨nofun, fun _ => (by rw [rightSel_right]; exact leftJoin_sel_of_nodup (nodup_of_strict (hlu rfl)))⟩
+  · rw [d9] at hp; cases hp; exact ⟨nofun, nofun⟩
+  · rw [d11] at hp; cases hp; exact ⟨nofun, nofun⟩
+  · rw [d10] at hp; cases hp; exact ⟨nofun, nofun⟩
+  · rw [d12] at hp; cases hp; exact ⟨nofun, nofun⟩
+
+/-- left join against unique right keys (`how='left'`, `hint_right_keys_unique`): the left side has no map and is taken row by row -/
+example : leftSel "left" [0, 2, 2, 7] [2, 5] = idSel 4 := by decide
+
+/-- **The ordered path, column by column, with no hypothesis about the specification left.** As `merge_correct_partial`,
+    but the in-range facts are proved (`leftSel_in_range`, `rightSel_in_range`) and a copied side is shown to be the
+    selected rows too (`no_map_is_identity`, `selectCol_id`): for `how ∈ {left, right, inner}`, every truthful unique-hint
+    combination, ordered key columns, every chunk size ≥ 1, a marker not below either frame length: the dispatched
+    generator succeeds and EVERY well-formed column of the left (right) frame becomes, without error, exactly
+    `selectCol col (leftSel how lk rk)` (`rightSel`): row `r` of every destination column is the source row the `r`-th row
+    of the relational join names, or the empty value where that side is unmatched. -/
+theorem merge_ordered_columns_correct (how : String) (hhow : how = "left" ∨ how = "right" ∨ how = "inner") (lu ru : Bool)
+    (lk rk : List Int) (hl : Sorted lk) (hr : Sorted rk) (hlu : Truthful lu lk) (hru : Truthful ru rk)
+    (cs vf : Nat) (hcs : 1 ≤ cs) (inv : Int) (hinvL : (lk.length : Int) ≤ inv) (hinvR : (rk.length : Int) ≤ inv)
+    (fuel : Nat) (hfuel : lk.length + rk.length + 2 * (relJoin how lk rk).length + 1 ≤ fuel) :
+    ∃ p o, plan how lu ru = .ok p ∧
+      Join.streamed p.variant fuel cs inv (if p.aLeft then lk else rk) (if p.aLeft then rk else lk) = .ok o ∧
+      (∀ m, leftMapOf p o = some m → m = encSel inv (leftSel how lk rk)) ∧
+      (∀ m, rightMapOf p o = some m → m = encSel inv (rightSel how lk rk)) ∧
+      (∀ col, ColOK col lk.length (cs * vf) →
+        ∃ out, mapColumn "left" col (leftMapOf p o) inv cs vf = .ok out ∧ selectCol col (leftSel how lk rk) = some out) ∧
+      (∀ col, ColOK col rk.length (cs * vf) →
+        ∃ out, mapColumn "right" col (rightMapOf p o) inv cs vf = .ok out ∧ selectCol col (rightSel how lk rk) = some out) := by
+  obtain ⟨p, o, h1, h2, h3, h4⟩ := merge_correct_partial how hhow lu ru lk rk hl hr hlu hru cs vf hcs inv hinvL hinvR fuel
+    hfuel (leftSel_in_range how lk rk) (rightSel_in_range how lk rk)
+  obtain ⟨p', o', h1', h2', m1, m2⟩ := ordered_maps_correct how hhow lu ru lk rk hl hr hlu hru cs (by omega) inv fuel hfuel
+  have hpp : p' = p := by rw [h1] at h1'; cases h1'; rfl
+  subst hpp
+  have hoo : o' = o := by rw [h2] at h2'; cases h2'; rfl
+  subst hoo
+  obtain ⟨n1, n2⟩ := no_map_is_identity how hhow lu ru lk rk hlu hru p' h1
+  refine ⟨p', o', h1, h2, m1, m2, ?_, ?_⟩
+  · intro col hcol
+    obtain ⟨out, g1, g2, g3⟩ := h3 col hcol
+    refine ⟨out, g1, ?_⟩
+    cases hm : leftMapOf p' o' with
+    | some m => exact g2 (by simp [hm])
+    | none =>
+      have hpl : p'.leftMap = none := by
+        cases hq : p'.leftMap with
+        | none => rfl
+        | some b => simp [leftMapOf, hq] at hm
+      rw [g3 hm, n1 hpl]
+      exact selectCol_id hcol
+  · intro col hcol
+    obtain ⟨out, g1, g2, g3⟩ := h4 col hcol
+    refine ⟨out, g1, ?_⟩
+    cases hm : rightMapOf p' o' with
+    | some m => exact g2 (by simp [hm])
+    | none =>
+      have hpl : p'.rightMap = none := by
+        cases hq : p'.rightMap with
+        | none => rfl
+        | some b => simp [rightMapOf, hq] at hm
+      rw [g3 hm, n2 hpl]
+      exact selectCol_id hcol
+
+/-- **Key order on the ordered path**: for `how ∈ {left, right, inner}` and sorted key columns, every row of the relational
+    join — the row list the ordered path produces, in that order (`merge_ordered_columns_correct`) — has a key
+    (`Spec.rowKey`: the key of whichever side is present), and these keys are non-decreasing from row to row. -/
+theorem ordered_path_key_order (how : String) (hhow : how = "left" ∨ how = "right" ∨ how = "inner") (lk rk : List Int)
+    (hl : Sorted lk) (hr : Sorted rk) :
+    ∃ ks, (relJoin how lk rk).map (rowKey lk rk) = ks.map some ∧ Sorted ks :=
+  relJoin_keys_sorted how hhow hl hr
+
+example : (relJoin "right" [0, 2, 2] [2, 5, 5]).map (rowKey [0, 2, 2] [2, 5, 5]) = [2, 2, 5, 5].map some := by decide
 
 /-!
 ## The full statements, and what is missing
